@@ -40,6 +40,12 @@ type Ctx struct {
 	NumRoot     int
 	NumFuncs    int
 
+	// Baseline: the symbol table of the pinned tree (rename resolution, renames.go); Renames: anchors resolved
+	// under a new name in this run ("rel.Old" -> "New")
+	Baseline    Baseline
+	Renames     map[string]string
+	renameAll   map[string]map[string]types.Object
+
 	mu      sync.Mutex
 	allFns  map[*ssa.Function]bool
 	cgVTA   *callgraph.Graph
